@@ -50,7 +50,11 @@ ASSUMPTIONS = ["time strings have the documented form HH:MM:SS[.fff]",
                "the given order"]
 EXPLANATION = "C09: window arithmetic of split, ordering/offsets of join."
 
-UNIVERSE = ["area_um", "deform", "frame", "index_online", "time"]
+UNIVERSE = ["area_um", "bright_avg", "deform", "frame", "index_online",
+            "time"]
+# features an input may be able to compute (non-rapid ancillary: bright_avg
+# from image and mask) without having them stored
+COMPUTABLE = ["bright_avg"]
 
 
 # ------------------------------------------------------------------ split
@@ -218,6 +222,9 @@ def run_join(eng, p):
                  if f in p["always"] or (f in p["maybe"] and
                                          bool(eng.bool("has_%s_%d" % (f, k))))]
         srcs.append(Src(eng, k, p["nfrac"][k], feats, p))
+        srcs[-1].comp = [f for f in COMPUTABLE
+                         if f in p["maybe"] and f not in feats and
+                         bool(eng.bool("comp_%s_%d" % (f, k)))]
     rec = {"exports": [], "stored": [], "logs": [], "opened": []}
     npx = SymNP()
 
@@ -302,8 +309,11 @@ def run_join(eng, p):
                 imaging={"frame rate": src.fr})
             self.features_innate = list(src.feats)
             self.features = list(src.feats)
+            self.features_loaded = list(src.feats)
             if "frame" in src.feats and "time" not in src.feats:
                 self.features.append("time")     # ancillary: frame / rate
+                self.features_loaded.append("time")   # (a "rapid" one)
+            self.features += list(src.comp)      # computed on demand only
             self.logs = {"log": ["line-of-%d" % src.k]}
             self.tables = {}
             self.export = Export(src)
@@ -438,7 +448,8 @@ def run_join(eng, p):
                   "join: every input is processed")
     # feature set
     def avail(s, f):
-        return f in s.feats or (f == "time" and "frame" in s.feats)
+        return f in s.feats or f in s.comp or (
+            f == "time" and "frame" in s.feats)
     common_f = [f for f in UNIVERSE if f in srcs[first].feats and
                 all(avail(s, f) for s in srcs)]
     eng.prove(z3.BoolVal(sorted(feats) == sorted(common_f)),
@@ -528,8 +539,10 @@ def cases(tier, seed):
         # (b) feature-set focus: presence bits symbolic
         for maybe in (["area_um", "deform", "frame"],
                       ["frame", "index_online", "time"],
-                      ["area_um", "deform", "index_online"]):
-            if n > 3:
+                      ["area_um", "deform", "index_online"],
+                      ["area_um", "bright_avg", "frame"]):
+            if n > 3 or (n == 3 and "bright_avg" in maybe
+                         and tier == "quick"):
                 continue
             out.append(("join n=%d features maybe=%s" % (n, maybe),
                         dict(kind="join", n=n, nfrac=[0] * n,
@@ -594,9 +607,13 @@ def replay(case, params, v):
                     if fr:
                         tm += "." + fr
                     pin = os.path.join(td, "in%d.rtdc" % k)
-                    _write(pin, 2, k, "2020-01-%02d" % day, tm, feats,
+                    comp = [f for f in COMPUTABLE
+                            if f in p["maybe"] and f not in feats and
+                            vals.get("comp_%s_%d" % (f, k), False)]
+                    _write(pin, 2, k, "2020-01-%02d" % day, tm,
+                           feats + (["image", "mask"] if comp else []),
                            run=int(vals.get("run%d" % k, 1)))
-                    srcs.append(dict(k=k, t=tsec, feats=feats,
+                    srcs.append(dict(k=k, t=tsec, feats=feats, comp=comp,
                                      run=int(vals.get("run%d" % k, 1))))
                     pins.append(pin)
                 pout = os.path.join(td, "out.rtdc")
@@ -612,7 +629,7 @@ def replay(case, params, v):
                     ev = h["events"]
                     def avail(s, f):
                         # `time` is computed from `frame` when missing
-                        return f in s["feats"] or (
+                        return f in s["feats"] or f in s["comp"] or (
                             f == "time" and "frame" in s["feats"])
                     first = srcs[exp_order[0]]
                     common_f = [f for f in UNIVERSE
@@ -679,6 +696,12 @@ def _write(path, N, k, date, tm, feats, run=1):
                 d = (np.arange(N) + 1) / 2000.
             elif f == "index_online":
                 d = np.arange(N)
+            elif f == "image":
+                d = (np.arange(N * 64).reshape(N, 8, 8) % 200).astype(
+                    np.uint8)
+            elif f == "mask":
+                d = np.zeros((N, 8, 8), dtype=bool)
+                d[:, 2:6, 2:6] = True
             else:
                 d = np.linspace(50, 60, N) + k
             hw.store_feature(f, d)
